@@ -975,23 +975,35 @@ func (s *v4Server) handleByRequestType(req *dhcpv4.DHCPv4) (lease *dhcpsvc.Lease
 //
 // See https://datatracker.ietf.org/doc/html/rfc2131#section-4.3.2.
 func (s *v4Server) handleRequest(req, resp *dhcpv4.DHCPv4) (lease *dhcpsvc.Lease, needsReply bool) {
-	lease, needsReply = s.handleByRequestType(req)
-	if lease == nil {
-		return nil, needsReply
+	for {
+		lease, needsReply = s.handleByRequestType(req)
+		if lease == nil {
+			return nil, needsReply
+		}
+
+		s.leasesLock.Lock()
+
+		// The lease has been found in another critical section.  Make sure
+		// that it hasn't been removed, or recycled for another client, in the
+		// meantime, and look it up again if it has.
+		if slices.Contains(s.leases, lease) && bytes.Equal(lease.HWAddr, req.ClientHWAddr) {
+			break
+		}
+
+		s.leasesLock.Unlock()
 	}
+
+	// Notify, which locks, after unlocking.
+	defer func() {
+		s.conf.notify(LeaseChangedAdded)
+		s.conf.notify(LeaseChangedDBStore)
+	}()
+	defer s.leasesLock.Unlock()
 
 	resp.UpdateOption(dhcpv4.OptMessageType(dhcpv4.MessageTypeAck))
 
 	hostname := req.HostName()
 	isRequested := hostname != "" || req.ParameterRequestList().Has(dhcpv4.OptionHostName)
-
-	defer func() {
-		s.conf.notify(LeaseChangedAdded)
-		s.conf.notify(LeaseChangedDBStore)
-	}()
-
-	s.leasesLock.Lock()
-	defer s.leasesLock.Unlock()
 
 	if lease.IsStatic {
 		if lease.Hostname != "" {
